@@ -10,6 +10,7 @@ mod c12;
 mod c14;
 mod c15;
 mod c16;
+mod c17;
 mod c18;
 mod corpus;
 mod fmt;
@@ -82,6 +83,10 @@ fn main() {
         "c16" => {
             let scratch = args.get(5).cloned().unwrap_or_else(|| "/verif/.build/scratch".to_string());
             c16::run(&mut out, tier, seed, &scratch)
+        }
+        "c17" => {
+            let scratch = args.get(5).cloned().unwrap_or_else(|| "/verif/.build/scratch".to_string());
+            c17::run(&mut out, tier, seed, &scratch)
         }
         "c16child" => {
             drop(out);
